@@ -81,7 +81,7 @@ def _run_op(op, execs, outdir):
     return res["outcome"]
 
 
-PROBES = ["pt_same", "pt_new", "enum_same", "blocks_same", "cms_new", "truth_same", "truth_new", "again_same"]
+PROBES = ["pt_same", "pt_new", "enum_same", "blocks_same", "cms_new", "mini_new", "truth_same", "truth_new", "again_same"]
 
 
 def _run_probe(probe, execs, outdir, fresh=False):
@@ -108,6 +108,9 @@ def _run_probe(probe, execs, outdir, fresh=False):
         exe, backend, src = execs["same"], "atlas", _query("atlas", _MD["decl"] + _MD["block"])
     elif probe == "cms_new":
         exe, backend, src = None, "cms_aod", _query("cms_aod", [])
+    elif probe == "mini_new":
+        # shares every file name with the CMS AOD package (another template directory)
+        exe, backend, src = None, "cms_miniaod", _query("cms_miniaod", [])
     else:
         raise common.MachineryError("unknown probe " + probe)
     if exe is None:
@@ -116,8 +119,8 @@ def _run_probe(probe, execs, outdir, fresh=False):
     text = []
     if res["outcome"] == "ok":
         for f in sorted(os.listdir(outdir)):
-            if f.endswith(".sh") or f.endswith(".C") or f.endswith(".xml"):
-                continue    # static files, identical by construction
+            # (the files rendered from static templates are part of the package too: a template served from
+            # another backend's directory shows here)
             text.append("=== %s\n%s" % (f, normalise.names(open(os.path.join(outdir, f), errors="replace").read())))
     found = {k: repr(v) for k, v in sorted(getattr(exe, "_found_extended_md", {}).items()) if v}
     proj = {"outcome": res["outcome"], "exc": res["exc"], "warnings": len(res["warnings"]), "found_ext_md": found,
